@@ -203,7 +203,7 @@ Ltac consts4 :=
    their setters; never the arithmetic, the loops or the model *)
 Ltac run4 :=
   cbv beta iota zeta delta [rep rep_zone tdate ttod tzone zh zm f_digits f_tprop f_tdump f_dump
-    ebind need is_none negb andb lift2 set_cal set_ord set_wk
+    ebind need is_none negb andb orb lift2 set_cal set_ord set_wk
     s_num_expanded_year_digits s_year s_month_of_year s_day_of_year s_day_of_month s_day_of_week
     s_week_of_year s_hour_of_day s_minute_of_hour s_second_of_minute s_truncated s_truncated_property
     s_truncated_dump_format s_dump_format s_time_zone
